@@ -214,25 +214,29 @@ func (f *file) parentsFromSymlink() ([]string, error) {
 		return nil, nil
 	}
 
-	f.path = dest
-
-	return f.parentsFromFilename()
+	// f.path stays the path this file was loaded as: loadFileAndParents
+	// compares it with the paths of later loads to detect cycles.
+	return parentsFromFilename(dest)
 }
 
 func (f *file) parentsFromFilename() ([]string, error) {
-	if isStdin(f.path) {
+	return parentsFromFilename(f.path)
+}
+
+func parentsFromFilename(path string) ([]string, error) {
+	if isStdin(path) {
 		return []string{}, nil
 	}
 
-	dir := filepath.Dir(f.path)
-	base := filepath.Base(f.path)
+	dir := filepath.Dir(path)
+	base := filepath.Base(path)
 
 	parts := strings.Split(base, ".")
 	// Last part is file extension
 
 	switch {
 	case len(parts) < 2:
-		return nil, fmt.Errorf("[%s] %w", f.path, ErrInvalidFilename)
+		return nil, fmt.Errorf("[%s] %w", path, ErrInvalidFilename)
 
 	case len(parts) == 2:
 		return []string{}, nil
